@@ -260,6 +260,7 @@ func genModel(repo, work string, overlay map[string]string) (string, error) {
 		fmt.Fprintf(&sb, "\t\t\tSlice: func(l any) any { return l.(*%s).%s },\n", g.List, g.ListField)
 		fmt.Fprintf(&sb, "\t\t\tLen: func(l any) int { return len(l.(*%s).%s) },\n", g.List, g.ListField)
 		fmt.Fprintf(&sb, "\t\t\tAt: func(l any, i int) any { return &l.(*%s).%s[i] },\n", g.List, g.ListField)
+		fmt.Fprintf(&sb, "\t\t\tIsRes: func(r any) bool { _, ok := r.([]%s); return ok },\n", g.Item)
 		fmt.Fprintf(&sb, "\t\t\tResLen: func(r any) int { return len(r.([]%s)) },\n", g.Item)
 		fmt.Fprintf(&sb, "\t\t\tResAt: func(r any, i int) any { s := r.([]%s); return &s[i] },\n", g.Item)
 		fmt.Fprintf(&sb, "\t\t\tSetItems: func(l any, r any) { l.(*%s).%s = r.([]%s) },\n", g.List, g.ListField, g.Item)
